@@ -560,6 +560,46 @@ func (g *Gen) Next(x *Exec, i int, prev *Ev) (Ev, bool) {
 			g.conn[s] = false
 			ev = Ev{Op: "disc", S: s}
 		case "try", "lock":
+			if op == "lock" && g.p.FifoPct > 0 && g.r.IntN(100) < g.p.FifoPct {
+				// a holder and four queued Lock calls; one of the first two gives up (wait timeout or cancel) while others are behind it;
+				// the holder releases; then each new holder releases in turn: the grants must come in arrival order (seed C03e)
+				live := []int{}
+				for s0 := 0; s0 < max(g.p.Sessions, 1); s0++ {
+					if g.conn[s0] {
+						live = append(live, s0)
+					}
+				}
+				if len(live) > 0 {
+					n := pick(g.r, g.p.Names)
+					one := int32(1)
+					wtGive := int32(1)
+					giver := g.r.IntN(2) // which of the queued calls gives up: the first or the second
+					byCancel := g.r.IntN(2) == 0
+					ev = Ev{Op: "try", S: pick(g.r, live), Name: n, Size: &one}
+					q := []Ev{}
+					for w := 0; w < 4; w++ {
+						l := Ev{Op: "lock", S: pick(g.r, live), Name: n, Size: &one}
+						if w == giver && !byCancel {
+							l.Wt = &wtGive
+						}
+						q = append(q, l)
+					}
+					if byCancel {
+						q = append(q, Ev{Op: "cancel", W: i + 1 + giver})
+					} else {
+						q = append(q, Ev{Op: "adv", Dt: 1000000001})
+					}
+					q = append(q, Ev{Op: "probe"}, Ev{Op: "unl", S: -1, Name: n, Key: &KeyRef{Ref: i}}, Ev{Op: "probe"})
+					for w := 0; w < 4; w++ {
+						if w != giver {
+							q = append(q, Ev{Op: "unl", S: -1, Name: n, Key: &KeyRef{Ref: i + 1 + w}}, Ev{Op: "probe"})
+						}
+					}
+					g.queue = append(g.queue, q...)
+					g.Stats["macro:queue-giveup-fifo"]++
+					break
+				}
+			}
 			s := g.session()
 			if s == -2 {
 				s0 := g.r.IntN(max(g.p.Sessions, 1))
